@@ -419,6 +419,23 @@ func genG07(repo string, w *Out) error {
 	}
 	w.DefN("set_h2_config_call_sites", uint64(n))
 
+	// the upstream dialer (dialvia.HTTPSProxy writes ServerName/NextProtos into the config it is given) and the
+	// TLS-terminating CONNECT get a private copy of the Transport's tls.Config
+	pcf, err := Parse(repo, "internal/martian/proxy_connect.go")
+	if err != nil {
+		return err
+	}
+	ctc, err := pcf.Func("Proxy.clientTLSConfig")
+	if err != nil {
+		return err
+	}
+	csrc := pcf.Src(ctc.Body)
+	cloned := strings.Contains(csrc, "return tr.TLSClientConfig.Clone()")
+	if !cloned && !strings.Contains(csrc, "return tr.TLSClientConfig") {
+		return fmt.Errorf("clientTLSConfig: body %q is not a shape the model knows", csrc)
+	}
+	w.DefBool("upstream_dialer_gets_tls_clone", cloned)
+
 	// ---------------------------------------------------------------- http_transport.go, tls.go
 	tf, err := Parse(repo, "http_transport.go")
 	if err != nil {
